@@ -102,8 +102,18 @@ def run(ctx):
         m = s["model"]
         ctx.count_case(json.dumps(m, sort_keys=True), nontrivial=any(t["outcome"] != "ok" for t in m["tasks"]) or not m["tasks"])
     ctx.exhaustive = quick
-    # 3. run on the real core
+    # 3. run on the real core, 4. validate
     lines = cs.run_scenarios(ctx, scenarios)
+    judge(ctx, scenarios, lines)
+
+
+def replay(ctx, obj):
+    s = obj["scenario"]
+    judge(ctx, [s], cs.run_scenarios(ctx, [s]))
+
+
+def judge(ctx, scenarios, lines):
+    by_id = {s["id"]: s for s in scenarios}
     keep = {"Reset", "Api", "ApiReply", "MMessage", "Snapshot", "End"}
 
     def proj(ln):
